@@ -221,6 +221,8 @@ pub struct Params {
     pub monitors: Vec<String>,
     /// targeted drops by frame content (requests to the network tap)
     pub targeted: Vec<crate::world::Targeted>,
+    /// report violations of every installed monitor under this property id
+    pub relabel: Option<String>,
 }
 
 impl Params {
